@@ -107,8 +107,8 @@ func runScenario(bin, dir string, sc *scenario) (res runResult) {
 	}()
 	tail := func() string {
 		b, _ := os.ReadFile(stderrPath)
-		if len(b) > 600 {
-			b = b[len(b)-600:]
+		if len(b) > 800 {
+			b = b[len(b)-800:]
 		}
 		return string(b)
 	}
